@@ -28,7 +28,7 @@ def _same_except(*fields):
 
 
 C[PA + 'split'] = dict(params=dict(self='Annotation'), returns='List[Annotation]', pure=True, trusted=True,
-                       bounded_by='one-residue pieces: checked by bounded/C07.py / bounded/C18.py',
+                       bounded_by='proved against its own contract in contracts/pieces.py (piece i is slice(i, i+1) of the peptide without labile modifications, which go to the first piece)',
                        ensures=[('one-piece-per-residue', 'len(result) == len(self._sequence)')])
 C[PA + 'strip'] = dict(params=dict(self='Annotation', inplace='bool'), returns='Annotation', pure=True, trusted=True,
                        requires=[('copy-mode', 'not inplace')], bounded_by=_EQP,
